@@ -76,7 +76,7 @@ func genPlan(streamKind bool) func(t *rapid.T) Plan {
 			}
 			if rapid.IntRange(0, 2).Draw(t, "ferr") == 0 && p.Len > 0 {
 				p.FErrAt = rapid.SliceOfNDistinct(rapid.IntRange(0, p.Len-1), 1, 3, func(x int) int { return x }).Draw(t, "ferrat")
-				p.FErrKind = rapid.SampledFrom([]int{0, 0, 1, 2}).Draw(t, "ferrkind")
+				p.FErrKind = rapid.SampledFrom([]int{0, 0, 1, 2, 3}).Draw(t, "ferrkind")
 			}
 			if len(p.FErrAt) > 0 && p.SrcErrAt < 0 && rapid.IntRange(0, 2).Draw(t, "idle") == 0 {
 				first := p.FErrAt[0]
@@ -197,6 +197,8 @@ func run(p Plan) (vk.Outcome, error) {
 				fErr[i] = fmt.Errorf("f(%d): nested call: %w", i, context.Canceled)
 			case 2:
 				fErr[i] = fmt.Errorf("f(%d): nested call: %w", i, context.DeadlineExceeded)
+			case 3:
+				fErr[i] = fmt.Errorf("f(%d): truncated record: %w", i, stream.End)
 			}
 		}
 		body := func(i int) {
@@ -258,7 +260,10 @@ func run(p Plan) (vk.Outcome, error) {
 			src := sk.NewRecStream("src", items)
 			src.Gaps = gaps
 			src.CloseDelay = time.Duration(p.CloseDelay) * time.Millisecond
-			srcE := sk.NewSentinel("src-error")
+			var srcE error = sk.NewSentinel("src-error")
+			if p.FErrKind == 3 || p.SrcErrAt%2 == 1 { // the source's own error may wrap the end marker: a failure all the same
+				srcE = fmt.Errorf("source: truncated record: %w", stream.End)
+			}
 			if p.SrcErrAt >= 0 {
 				src.FinalAt, src.Final = p.SrcErrAt, srcE
 			}
